@@ -19,4 +19,4 @@ require (
 	golang.org/x/term v0.33.0 // indirect
 )
 
-replace github.com/virel-project/virel-blockchain/v3 => /tmp/dbg/repo
+replace github.com/virel-project/virel-blockchain/v3 => /repo
